@@ -279,8 +279,11 @@ class YAMLPath:
         """
         old_value: PathSeparators = self._separator
 
-        # This changes only the stringified representation
+        # This changes only the stringified representation; so, the path must
+        # be parsed -- in both forms -- while the separator it was written
+        # with still applies
         if not value == old_value:
+            _ = self.escaped
             self._stringified = YAMLPath._stringify_yamlpath(
                 self.unescaped, value)
             self._separator = value
